@@ -282,6 +282,20 @@ pub static SYNTHETIC: Alphabet = Alphabet {
     special: &[0x0061, 0x0062, 0x0063, 0x0064, 0x0065, 0x0066, 0x0067, 0x0068, 0x0069, 0x002F, 0x0020, 0x25CC, 0x0031, 0xFB00, 0xFB01, 0xFB02, 0xFB03, 0xFB04, 0xFEFB],
 };
 
+/// The private-use characters the generated layout fonts encode (U+E000 + glyph id).
+pub static PUA: Alphabet = Alphabet {
+    tag: b"latn",
+    blocks: &[(0xE001, 0xE040)],
+    cons: &[(0xE001, 0xE014), (0xE001, 0xE008), (0xE001, 0xE03F)],
+    halant: &[0xE002, 0xE005],
+    nukta: &[0xE003],
+    ra: &[0xE001, 0xE004, 0xE007],
+    matra: &[(0xE001, 0xE014)],
+    prebase: &[0xE006, 0xE009],
+    marks: &[(0xE001, 0xE014)],
+    special: &[0xE001, 0xE002, 0xE003, 0xE004, 0xE005, 0xE006, 0xE007, 0xE008, 0xE00A, 0xE010, 0xE013, 0xE020],
+};
+
 pub fn alphabet_for(tag: &[u8; 4]) -> &'static Alphabet {
     let base: [u8; 4] = match tag {
         b"dev2" => *b"deva",
